@@ -24,6 +24,7 @@ type Mapping struct {
 }
 
 type Decl struct {
+	FromStart bool   `json:"from_start,omitempty"` // the predecessor is START (S = Outer, the workflow's input), not a lambda node
 	Indirect bool    `json:"indirect,omitempty"` // data through AddInputWithOptions(WithNoDirectDependency), control through a relay node
 	S      string    `json:"s"`                // predecessor output type
 	Val    *V        `json:"val"`              // what the predecessor returns (Invoke)
@@ -95,22 +96,23 @@ type srcOf[S any] struct{}
 func (srcOf[S]) lambda(vals []reflect.Value) *compose.Lambda {
 	if len(vals) == 1 {
 		v, _ := vals[0].Interface().(S) // a nil interface value (S = any) stays the nil S
-		return compose.InvokableLambda(func(ctx context.Context, in int) (S, error) { return v, nil })
+		return compose.InvokableLambda(func(ctx context.Context, in Outer) (S, error) { return v, nil })
 	}
 	arr := make([]S, len(vals))
 	for i, v := range vals {
 		arr[i], _ = v.Interface().(S)
 	}
-	return compose.StreamableLambda(func(ctx context.Context, in int) (*schema.StreamReader[S], error) {
+	return compose.StreamableLambda(func(ctx context.Context, in Outer) (*schema.StreamReader[S], error) {
 		cp := make([]S, len(arr))
 		copy(cp, arr)
 		return schema.StreamReaderFromArray(cp), nil
 	})
 }
 
+// every workflow takes an Outer as its input: a declaration of source type Outer may come from START itself
 type runFns struct {
-	invoke func() (reflect.Value, error)
-	stream func() ([]reflect.Value, error)
+	invoke func(in Outer) (reflect.Value, error)
+	stream func(in Outer) ([]reflect.Value, error)
 }
 
 type tgtHandle interface {
@@ -124,7 +126,7 @@ type tgtOf[T any] struct{}
 
 func (tgtOf[T]) build(mid, inv bool, add func(wf wfAPI, succ *compose.WorkflowNode)) (*runFns, error) {
 	ctx := context.Background()
-	wf := compose.NewWorkflow[int, T]()
+	wf := compose.NewWorkflow[Outer, T]()
 	if mid && inv {
 		succ := wf.AddLambdaNode("mid", compose.InvokableLambda(func(ctx context.Context, in T) (T, error) {
 			return in, nil
@@ -145,8 +147,8 @@ func (tgtOf[T]) build(mid, inv bool, add func(wf wfAPI, succ *compose.WorkflowNo
 		return nil, err
 	}
 	return &runFns{
-		invoke: func() (reflect.Value, error) {
-			out, err := r.Invoke(ctx, 0)
+		invoke: func(in Outer) (reflect.Value, error) {
+			out, err := r.Invoke(ctx, in)
 			if err != nil {
 				return reflect.Value{}, err
 			}
@@ -154,8 +156,8 @@ func (tgtOf[T]) build(mid, inv bool, add func(wf wfAPI, succ *compose.WorkflowNo
 			rv.Set(reflect.ValueOf(&out).Elem())
 			return rv, nil
 		},
-		stream: func() ([]reflect.Value, error) {
-			sr, err := r.Stream(ctx, 0)
+		stream: func(in Outer) ([]reflect.Value, error) {
+			sr, err := r.Stream(ctx, in)
 			if err != nil {
 				return nil, err
 			}
@@ -320,7 +322,7 @@ func withWatchdog(f func()) (p any, hung bool) {
 	select {
 	case p = <-done:
 		return p, false
-	case <-time.After(10 * time.Second):
+	case <-time.After(60 * time.Second): // generous: the machine may be heavily loaded; a run takes well under a millisecond
 		return nil, true
 	}
 }
@@ -370,6 +372,9 @@ func execute(c *Case) *outcome {
 				if !ok {
 					panic("no source handle for " + c.Decls[i].S)
 				}
+				if c.Decls[i].FromStart {
+					continue
+				}
 				wf.AddLambdaNode(fmt.Sprintf("n%d", i), sh.lambda(bs[i].inv)).AddInput(compose.START)
 			}
 			for i := range c.Decls {
@@ -377,16 +382,23 @@ func execute(c *Case) *outcome {
 				for _, m := range c.Decls[i].Maps {
 					fms = append(fms, fieldMapping(m, c.Short))
 				}
-				if c.Decls[i].Indirect {
+				if c.Decls[i].FromStart {
+					succ.AddInput(compose.START, fms...)
+				} else if c.Decls[i].Indirect {
 					// control: n_i -> relay_i -> successor; data: n_i -> successor without direct dependency
 					relay := fmt.Sprintf("relay%d", i)
-					wf.AddLambdaNode(relay, compose.InvokableLambda(func(ctx context.Context, in int) (int, error) { return in, nil })).
+					wf.AddLambdaNode(relay, compose.InvokableLambda(func(ctx context.Context, in Outer) (int, error) { return 0, nil })).
 						AddDependency(fmt.Sprintf("n%d", i)).AddInput(compose.START)
 					succ.AddDependency(relay)
 					succ.AddInputWithOptions(fmt.Sprintf("n%d", i), fms, compose.WithNoDirectDependency())
 				} else {
 					succ.AddInput(fmt.Sprintf("n%d", i), fms...)
 				}
+			}
+			if len(c.Decls) == 0 {
+				// the successor's input consists of static values only: it still needs a control predecessor
+				wf.AddLambdaNode("dep", compose.InvokableLambda(func(ctx context.Context, in Outer) (int, error) { return 0, nil })).AddInput(compose.START)
+				succ.AddDependency("dep")
 			}
 			for j, s := range c.Statics {
 				var v any
@@ -397,6 +409,14 @@ func execute(c *Case) *outcome {
 			}
 		}
 		return bs, add
+	}
+	startVal := func(bs []built) Outer {
+		for i := range c.Decls {
+			if c.Decls[i].FromStart {
+				return bs[i].inv[0].Interface().(Outer)
+			}
+		}
+		return Outer{}
 	}
 	checkSrc := func(bs []built, what string) {
 		for i, b := range bs {
@@ -426,7 +446,7 @@ func execute(c *Case) *outcome {
 	o.Compile = "accept"
 	var rv reflect.Value
 	var rerr error
-	p, hung := withWatchdog(func() { rv, rerr = fns.invoke() })
+	p, hung := withWatchdog(func() { rv, rerr = fns.invoke(startVal(bsI)) })
 	switch {
 	case hung:
 		o.Invoke = "hang"
@@ -436,6 +456,9 @@ func execute(c *Case) *outcome {
 		o.Invoke, o.InvMsg = "err", firstLine(strings.ReplaceAll(rerr.Error(), "\n", " | "))
 	default:
 		o.Invoke, o.InvVal = "ok", render(rv)
+		if !o.InvVal.knownSyms() {
+			o.Invoke, o.InvMsg, o.InvVal = "garbage", "result with keys outside the case: "+o.InvVal.String(), nil
+		}
 	}
 	checkSrc(bsI, "invoke")
 
@@ -447,7 +470,7 @@ func execute(c *Case) *outcome {
 		return o
 	}
 	var rvs []reflect.Value
-	p, hung = withWatchdog(func() { rvs, rerr = fnsS.stream() })
+	p, hung = withWatchdog(func() { rvs, rerr = fnsS.stream(startVal(bsS)) })
 	switch {
 	case hung:
 		o.Stream = "hang"
@@ -461,6 +484,12 @@ func execute(c *Case) *outcome {
 			o.StrVals = append(o.StrVals, render(v))
 		}
 		o.StrVals = sortVs(o.StrVals)
+		for _, v := range o.StrVals {
+			if !v.knownSyms() {
+				o.Stream, o.StrMsg, o.StrVals = "garbage", "chunk with keys outside the case: "+v.String(), nil
+				break
+			}
+		}
 	}
 	checkSrc(bsS, "stream")
 
@@ -473,7 +502,7 @@ func execute(c *Case) *outcome {
 			return o
 		}
 		var rvs []reflect.Value
-		p, hung = withWatchdog(func() { rvs, rerr = fnsC.stream() })
+		p, hung = withWatchdog(func() { rvs, rerr = fnsC.stream(startVal(bsC)) })
 		switch {
 		case hung:
 			o.Concat = "hang"
@@ -485,6 +514,9 @@ func execute(c *Case) *outcome {
 			o.Concat, o.ConMsg = "err", fmt.Sprintf("an invokable node produced %d chunks", len(rvs))
 		default:
 			o.Concat, o.ConVal = "ok", render(rvs[0])
+			if !o.ConVal.knownSyms() {
+				o.Concat, o.ConMsg, o.ConVal = "garbage", "result with keys outside the case: "+o.ConVal.String(), nil
+			}
 		}
 		checkSrc(bsC, "stream-concat")
 	}
